@@ -1875,6 +1875,10 @@ async function shallow_parse_input_query(query_text, input_iterator, join_tables
         query_context.lhs_join_var_expression = lhs_variables.length == 1 ? lhs_variables[0] : 'JSON.stringify([' + lhs_variables.join(',') + '])';
         query_context.join_map_impl = new HashJoinMap(join_record_iterator, rhs_indices);
         await query_context.join_map_impl.build();
+        if (join_header !== null) {
+            // The null record of LEFT JOIN must be as wide as the join header even when the join table has no data records
+            query_context.join_map_impl.max_record_len = Math.max(query_context.join_map_impl.max_record_len, join_header.length);
+        }
         query_context.join_map = new sql_join_type(query_context.join_map_impl);
     }
 
